@@ -276,6 +276,16 @@ def normalize_l1(events):
             out.append({'a': 'End', 'n': n})
         else:
             out.append({'a': a, 'n': n})
+    # the logged scalar state of an operation executed while a GC pass is parked is compared (at the next event) with a
+    # specification state in which the pass has moved on: not comparable, dropped
+    ingc = False
+    for x in out:
+        if x['a'] == 'GCStart':
+            ingc = True
+        elif x['a'] == 'GC':
+            ingc = False
+        elif ingc and 'st' in x:
+            x['st'] = dict(NOST)
     return out
 
 
